@@ -47,8 +47,8 @@ ID_RE = re.compile(r"(?<![A-Za-z0-9])([HIF]\d+)(?![A-Za-z0-9])")
 
 def bounds(tier):
     if tier == "quick":
-        return {"hlen": 3, "hfill": ["para", "none"], "llen": 2, "lfill": G.F_KINDS}
-    return {"hlen": 4, "hfill": G.F_KINDS + ["none"], "llen": 3, "lfill": ["para", "blank", "div", "table", "tmpl", "span"]}
+        return {"hlen": 3, "hfill": ["para", "none", "pf_if", "pf_nest"], "llen": 2, "lfill": G.F_KINDS}
+    return {"hlen": 4, "hfill": G.F_KINDS + ["none"], "llen": 3, "lfill": ["para", "blank", "div", "table", "tmpl", "span", "pf_if", "pf_nest"]}
 
 
 def expected_exhaustive(tier):
@@ -414,14 +414,15 @@ class Monitor:
                     break
         # 2. simplify decorations / fillers / rule length
         for i, ln in enumerate(cur):
-            for key, plain in (("deco", "plain"), ("fk", "para"), ("n", 4)):
-                if key in ln and ln[key] != plain:
-                    cand = [dict(x) for x in cur]
-                    cand[i][key] = plain
-                    if key == "fk" and cand[i].get("id") is None:
-                        cand[i]["id"] = "F%d" % (900 + i)
-                    if holds(cand):
-                        cur = cand
+            # canonical replacements, simplest first (a parser-function block falls back to the plainest one)
+            for key, plains in (("deco", ("plain", "pf_if")), ("fk", ("para", "pf_if")), ("n", (4,))):
+                for plain in plains:
+                    if key in cur[i] and cur[i][key] != plain and not (plain == "pf_if" and not str(cur[i][key]).startswith("pf_")):
+                        cand = [dict(x) for x in cur]
+                        cand[i][key] = plain
+                        if holds(cand):
+                            cur = cand
+                            break
         # 3. canonical markers: strip a common leading character, shorten single markers, '#' -> '*', '*' first
         def lset(ls, f):
             return [dict(x, m=f(x["m"])) if x["k"] == "l" else x for x in ls]
